@@ -446,5 +446,6 @@ func runC08(r *vk.Run) {
 	r.Require("error_label_stream_checks", 100)
 	r.Require("limit_checks", 4000)
 	r.Require("truncating_limits", 500)
+	phaseFlaky(r, "C08")
 	r.Require("streams", 2000)
 }
